@@ -121,8 +121,7 @@ class Rep:
         return out
 
     def call_expr(self, i, j):
-        k = self.kinds[j]
-        hi, hj = self.home(i), self.home(j)
+        hi = self.home(i)
         if (i, j) in self.passthru:
             return ("" if hi == "Main" else "Main.") + "u%d()" % j
         return self.expr_from(hi, j)
@@ -168,9 +167,8 @@ class Rep:
         return "Main.e%d.node()" % i
 
     def direct_expr(self, i):
-        return self.expr_from("Top", i).replace("Main.Main.", "Main.") if False else {
-            "P": "Main.p(%d)" % i, "K": "Main.e%d(1, 2)" % i, "O": "Oth.e%d()" % i,
-            "I": "Itm[1].e%d()" % i}.get(self.kinds[i], "Main.e%d()" % i)
+        return {"P": "Main.p(%d)" % i, "K": "Main.e%d(1, 2)" % i, "O": "Oth.e%d()" % i,
+                "I": "Itm[1].e%d()" % i}.get(self.kinds[i], "Main.e%d()" % i)
 
     def build(self, rec):
         n, kinds = self.n, self.kinds
@@ -399,8 +397,6 @@ class Model16:
                 rec.do("m.clear_all()")
             except Exception:
                 self.dirty = True
-            if "I" in rep.kinds and rec.ev("len(Itm.itemspaces)"):
-                pass
         res.sample({"model": rec.lines[1:self.base_len], "targets": [rep.node_expr(t) for t in tl], "step": step},
                    cap=3)
 
@@ -411,8 +407,6 @@ def all_runs(res, rep, rnd, max_runs=None, recalc_too=False):
     combos = []
     for r in range(1, n + 1):
         for tg in itertools.combinations(range(n), r):
-            if any(rep.kinds[t] == "?" for t in tg):
-                continue
             for step in list(range(1, n + 2)):
                 combos.append((tg, step))
     if max_runs and len(combos) > max_runs:
